@@ -398,6 +398,15 @@ def main(tier):
                  r'^(isal_deflate_body|isal_deflate_finish|isal_deflate_icf_body_hash_hist|isal_deflate_icf_finish_hash_hist)_0\d$',
                  icf=dict(level_buf=c19.field_offsets('struct isal_zstream', ['level_buf'])['level_buf'],
                           **c19.field_offsets('struct level_buf', ['icf_buf_next', 'icf_buf_avail_out'], headers=('igzip_level_buf_structs.h',))))
+    import siblings
+    _names = ['total_in_start', 'block_next', 'block_end', 'dist_mask', 'hash_mask', 'state', 'bitbuf', 'crc', 'has_wrap_hdr', 'has_eob_hdr', 'has_eob', 'has_hist', 'has_level_buf_init', 'count', 'tmp_out_buff',
+              'tmp_out_start', 'tmp_out_end', 'b_bytes_valid', 'b_bytes_processed', 'buffer', 'head']
+    _user = ['next_in', 'avail_in', 'total_in', 'next_out', 'avail_out', 'total_out', 'hufftables', 'level', 'level_buf_size', 'level_buf', 'end_of_stream', 'flush', 'gzip_flag', 'hist_bits']
+    _off = c19.field_offsets('struct isal_zstream', ['internal_state.' + n for n in _names] + _user)
+    siblings.check(rep, 'DEFLATE', mod, {'isal_deflate_body_base': r'^isal_deflate_body_0\d$', 'isal_deflate_finish_base': r'^isal_deflate_finish_0\d$',
+                                          'isal_deflate_icf_body_hash_hist_base': r'^isal_deflate_icf_body_hash_hist_0\d$', 'isal_deflate_icf_finish_hash_hist_base': r'^isal_deflate_icf_finish_hash_hist_0\d$'},
+                   sorted([(n.replace('internal_state.', ''), o, 0) for n, o in _off.items()], key=lambda x: x[1]),
+                   {'has_eob': 'cleared on entry by the asm bodies; no code of the library ever reads the field (write-only bookkeeping)'}, 8)
     Kst, _dr = mirror.c_values('default', ['igzip_lib.h'], [('ZSTATE_BODY', 'ZSTATE_BODY')], 'c10_zstate')
     asmlin.check_state_siblings(rep, 'DEFLATE', mod, {'isal_deflate_body_base': r'^isal_deflate_body_0\d$', 'isal_deflate_finish_base': r'^isal_deflate_finish_0\d$',
                                                        'isal_deflate_icf_body_hash_hist_base': r'^isal_deflate_icf_body_hash_hist_0\d$', 'isal_deflate_icf_finish_hash_hist_base': r'^isal_deflate_icf_finish_hash_hist_0\d$'},
